@@ -7,7 +7,9 @@ import (
 	"sort"
 	"strings"
 
+	"verifharness/internal/lmm"
 	"verifharness/internal/node"
+	"verifharness/internal/snap"
 )
 
 // world is a seeded multi-datatype workload generator with just enough bookkeeping to
@@ -29,12 +31,15 @@ type wNode struct {
 	locked bool
 	branch string
 	kids   int
+	anc    map[string]bool // uuids of this node and all its ancestors
 }
 
 type wInst struct {
 	name, typ string
 	keys      []string
 	tags      map[string]string
+	ingestAt  string   // labelmap: version where the voxels were ingested
+	labels    []uint64 // labelmap: labels seen so far (for snapshots)
 }
 
 type wRepo struct {
@@ -55,8 +60,31 @@ type wOp struct {
 	Resp   string `json:"resp,omitempty"`
 }
 
+var worldGeom = lmm.NewGeom(1, true)
+
+// snapOptions returns the snapshot options matching the instances of this world.
+func (w *world) snapOptions() snap.Options {
+	o := snap.Options{Volume: map[string][2]string{}, Bodies: map[string][]uint64{}, LabelPoints: map[string][]string{}}
+	g := worldGeom
+	for _, r := range w.repos {
+		for _, in := range r.insts {
+			switch in.typ {
+			case "uint8blk":
+				o.Volume[in.name] = [2]string{"96_64_32", "-32_0_0"}
+			case "labelmap":
+				o.Volume[in.name] = [2]string{fmt.Sprintf("%d_%d_%d", g.Size[0], g.Size[1], g.Size[2]), fmt.Sprintf("%d_%d_%d", g.Min[0], g.Min[1], g.Min[2])}
+				o.Bodies[in.name] = in.labels
+				for _, p := range g.Point {
+					o.LabelPoints[in.name] = append(o.LabelPoints[in.name], fmt.Sprintf("%d_%d_%d", p[0], p[1], p[2]))
+				}
+			}
+		}
+	}
+	return o
+}
+
 func newWorld(n *node.Node, seed int64) *world {
-	return &world{n: n, rng: rand.New(rand.NewSource(seed)), Types: []string{"keyvalue", "roi", "annotation", "neuronjson", "uint8blk"}}
+	return &world{n: n, rng: rand.New(rand.NewSource(seed)), Types: []string{"labelmap", "keyvalue", "roi", "annotation", "neuronjson", "uint8blk"}}
 }
 
 func (w *world) do(kind, method, url string, body []byte) (node.Resp, error) {
@@ -120,10 +148,13 @@ func (w *world) step() (string, error) {
 		switch k := w.rng.Intn(20); {
 		case k == 0 && len(w.repos) < 2:
 			return w.newRepo()
-		case k == 1 && len(r.insts) < len(w.Types):
+		case (k == 1 || k >= 17) && len(r.insts) < len(w.Types):
 			typ := w.Types[len(r.insts)]
 			name := fmt.Sprintf("%s%d", typ[:2], len(r.insts))
 			cfg := map[string]string{"typename": typ, "dataname": name}
+			if typ == "labelmap" {
+				cfg["BlockSize"] = "32,32,32"
+			}
 			if w.rng.Intn(2) == 0 {
 				cfg["Tags"] = "type=meshes,owner=a"
 			}
@@ -147,6 +178,16 @@ func (w *world) step() (string, error) {
 			}
 			nd := o[w.rng.Intn(len(o))]
 			in := r.insts[w.rng.Intn(len(r.insts))]
+			if lm := r.inst("labelmap"); lm != nil && (lm.ingestAt == "" || w.rng.Intn(3) == 0) {
+				in = lm // proofreading sequences need several label operations per history
+				if lm.ingestAt != "" {
+					for _, cand := range o {
+						if cand.anc[lm.ingestAt] {
+							nd = cand
+						}
+					}
+				}
+			}
 			return w.dataWrite(r, nd, in)
 		case k == 7 || k == 8: // commit
 			o := r.open()
@@ -190,7 +231,11 @@ func (w *world) step() (string, error) {
 			if resp.Status == 200 {
 				var out struct{ Child string }
 				json.Unmarshal(resp.Bytes(), &out)
-				r.nodes = append(r.nodes, &wNode{uuid: out.Child, branch: br})
+				anc := map[string]bool{out.Child: true}
+				for a := range p.anc {
+					anc[a] = true
+				}
+				r.nodes = append(r.nodes, &wNode{uuid: out.Child, branch: br, anc: anc})
 				p.kids++
 			}
 			return kind, nil
@@ -211,7 +256,11 @@ func (w *world) step() (string, error) {
 			if resp.Status == 200 {
 				var out struct{ Child string }
 				json.Unmarshal(resp.Bytes(), &out)
-				r.nodes = append(r.nodes, &wNode{uuid: out.Child})
+				anc := map[string]bool{out.Child: true}
+				for x := range c[a].anc { // label data follows the first parent
+					anc[x] = true
+				}
+				r.nodes = append(r.nodes, &wNode{uuid: out.Child, anc: anc})
 				c[a].kids++
 				c[b].kids++
 			}
@@ -295,7 +344,7 @@ func (w *world) newRepo() (string, error) {
 	}
 	var out struct{ Root string }
 	json.Unmarshal(resp.Bytes(), &out)
-	w.repos = append(w.repos, &wRepo{root: out.Root, nodes: []*wNode{{uuid: out.Root}}})
+	w.repos = append(w.repos, &wRepo{root: out.Root, nodes: []*wNode{{uuid: out.Root, anc: map[string]bool{out.Root: true}}}})
 	return "newrepo", nil
 }
 
@@ -346,6 +395,61 @@ func (w *world) dataWrite(r *wRepo, nd *wNode, in *wInst) (string, error) {
 		b, _ := json.Marshal(m)
 		_, err := w.do("njpost", "POST", fmt.Sprintf("%s/key/%d?u=user%d", base, id, w.rng.Intn(2)), b)
 		return "njpost", err
+	case "labelmap":
+		g := worldGeom
+		if in.ingestAt == "" {
+			sv := []uint64{1, 1, 2, 2, 3, 0}
+			for b := 1; b <= len(g.Blocks); b++ {
+				vol := g.BlockVolume(b, func(r int) uint64 {
+					if r == 0 {
+						return 0
+					}
+					return sv[r-1]
+				})
+				bc := g.Blocks[b-1]
+				if _, err := w.do("lmingest", "POST", fmt.Sprintf("%s/raw/0_1_2/32_32_32/%d_%d_%d", base, bc[0]*32, bc[1]*32, bc[2]*32), vol); err != nil {
+					return "", err
+				}
+			}
+			in.ingestAt = nd.uuid
+			in.labels = []uint64{1, 2, 3}
+			return "lmingest", nil
+		}
+		if !nd.anc[in.ingestAt] {
+			return "", nil // the voxels are not visible on this branch
+		}
+		pick := func() uint64 { return in.labels[w.rng.Intn(len(in.labels))] }
+		var resp node.Resp
+		var err error
+		kind := ""
+		switch w.rng.Intn(3) {
+		case 0:
+			kind = "lmmerge"
+			a, b := pick(), pick()
+			if a == b {
+				b = in.labels[(w.rng.Intn(len(in.labels)-1)+1+indexOf(in.labels, a))%len(in.labels)]
+			}
+			resp, err = w.do(kind, "POST", base+"/merge", []byte(fmt.Sprintf("[%d,%d]", a, b)))
+		case 1:
+			kind = "lmcleave"
+			resp, err = w.do(kind, "POST", fmt.Sprintf("%s/cleave/%d", base, pick()), []byte(fmt.Sprintf("[%d]", pick())))
+		default:
+			kind = "lmsplitsv"
+			// split region 3 (or 4) off supervoxel 2; refused when that supervoxel no longer exists here
+			reg := map[int]bool{3 + w.rng.Intn(2): true}
+			resp, err = w.do(kind, "POST", base+"/split-supervoxel/2", lmm.EncodeRLEs(g.RegionRLEs(reg)))
+		}
+		if err != nil {
+			return "", err
+		}
+		var o struct{ CleavedLabel, SplitSupervoxel, RemainSupervoxel uint64 }
+		json.Unmarshal(resp.Bytes(), &o)
+		for _, l := range []uint64{o.CleavedLabel, o.SplitSupervoxel, o.RemainSupervoxel} {
+			if l != 0 {
+				in.labels = append(in.labels, l)
+			}
+		}
+		return kind, nil
 	case "uint8blk":
 		buf := make([]byte, 32*32*32)
 		v := byte(1 + w.rng.Intn(250))
@@ -361,4 +465,13 @@ func (w *world) dataWrite(r *wRepo, nd *wNode, in *wInst) (string, error) {
 
 func (w *world) describe(op wOp) string {
 	return strings.TrimSpace(fmt.Sprintf("#%d %s %s %s -> %d", op.Seq, op.Kind, op.Method, op.URL, op.Status))
+}
+
+func indexOf(a []uint64, x uint64) int {
+	for i, v := range a {
+		if v == x {
+			return i
+		}
+	}
+	return 0
 }
